@@ -18,6 +18,54 @@ from ..bounds import _guards, _norm_cmp
 from ..report import Violation, AnalysisBroken
 from . import C01
 
+def check_cond_initialised(mod, rep, rid):
+    """A record taken from nsync_waiter_new_ is usually a *reused* one (per-thread cache / free pool): whatever condition its last
+    nsync_mu_wait left in cond.f is still there.  A cv waiter that a signaller transfers to the mutex queue is judged by the unlocker through
+    cond.f - a stale false condition makes the unlocker skip it and the cv wake-up is swallowed.  So on every path from the allocation to the
+    first enqueue, cond.f is written (directly, by a helper that writes it on all its paths, or by nsync_waiter_new_ itself on all its paths)."""
+    from ..cfg import paths_avoiding
+    memo = {}
+    def is_cond_store(f, i):
+        if i.op != 'store':
+            return False
+        ac = util.addr_class(mod, f, i.ops[1])
+        return bool(ac['path']) and ac['path'][-1].endswith('wait_condition_s.f')
+    def inits(name, depth=0):
+        if name in memo:
+            return memo[name]
+        memo[name] = False
+        f = mod.func(name)
+        if f is None or f.decl or depth > 3:
+            return False
+        first = f.blocks[0].insts[0]
+        bar = lambda i: is_cond_store(f, i) or (i.op == 'call' and i.callee and i.callee != name and inits(i.callee, depth + 1)) or util.is_assert_trap(i)
+        if bar(first):
+            memo[name] = True
+        else:
+            memo[name] = paths_avoiding(f, first, lambda i: i.op == 'ret', bar) is None
+        return memo[name]
+    n = 0
+    for f in mod.defined.values():
+        if f.name == 'nsync_waiter_new_':
+            continue
+        for c in f.real_insts():
+            if not (c.op == 'call' and c.callee == 'nsync_waiter_new_'):
+                continue
+            enq = lambda i: i.op == 'call' and (i.callee or '').startswith('nsync_dll_make_')
+            if not any(enq(i) for i in f.real_insts()):
+                continue
+            n += 1
+            ok = inits('nsync_waiter_new_')
+            bad = None
+            if not ok:
+                bar = lambda i: is_cond_store(f, i) or (i.op == 'call' and i.callee and i.callee not in ('nsync_waiter_new_', f.name) and inits(i.callee))
+                bad = paths_avoiding(f, c, enq, bar)
+                ok = bad is None
+            rep.instance(rid, 'record allocated at %s: cond.f written before the first enqueue on every path' % c.where()); rep.oblig(rid, ok)
+            if not ok:
+                rep.violate(Violation(rid, bad.where(), 'the waiter record obtained at %s can be enqueued here with cond.f never written since it was taken from the pool: a condition left by an earlier nsync_mu_wait of the same thread is judged by the unlocker after a cv-to-mutex transfer and the signalled waiter is skipped - its wake-up is swallowed' % c.where(), site='%s/stale-cond' % f.name))
+    return n
+
 def check_non_empty_record(K, eng, r, s, rep, rid):
     """one interpreted transition of a cv word judged against 'CV_NON_EMPTY tracks the queue' (shared with C11: the waitable hooks)"""
     NE = K['CV_NON_EMPTY']
@@ -149,6 +197,9 @@ def run(ctx, rep):
     rep.floor('C04.R1', 4)
     rep.floor('C04.R2', 1)
     rep.floor('C04.R3', 3)
+    rep.rule('C04.R8', 'a pooled waiter record has cond.f written between its allocation and its first enqueue')
+    check_cond_initialised(mod, rep, 'C04.R8')
+    rep.floor('C04.R8', 2)
     rep.floor('C04.R4', 4)
     rep.assumptions += ['coverage of every started wait under all interleavings is not decided', 'the typestate of C01 stands for "holds the mutex"']
     return rep.finish(
